@@ -1026,6 +1026,7 @@ class Table:
         # a malformed filter must raise on an empty table too, not be answered
         # with an empty result.
         expressions = parse_filter_dict(filter_dict) if filter_dict else []
+        self._check_filter_columns(expressions)
         compute_expr = to_pyarrow_compute_expression(expressions) if expressions else None
 
         data_files = self._get_all_data_files()
@@ -1156,6 +1157,7 @@ class Table:
         # Validate the filter before anything else (same as scan()): malformed
         # filters raise on empty tables too.
         expressions = parse_filter_dict(filter) if filter else []
+        self._check_filter_columns(expressions)
         compute_expr = to_pyarrow_compute_expression(expressions) if expressions else None
 
         data_files = self._get_all_data_files()
@@ -1365,6 +1367,28 @@ class Table:
         but without cross-manifest path de-duplication.
         """
         return self._get_all_data_files()
+
+    def _check_filter_columns(self, expressions: List[Any]) -> None:
+        """Reject a filter naming a column the table does not have.
+
+        The row filter only noticed an unknown column when a file was actually
+        read: on an empty table, or when another condition pruned every file,
+        the misspelt filter was answered with an empty result instead of an
+        error.
+        """
+        if not expressions:
+            return
+        schema = self._get_current_schema()
+        if schema is None:
+            return
+        known = {f.get("name") for f in schema.fields if isinstance(f, dict)}
+        if not known:
+            return  # table created without a persisted schema: nothing to check against
+        unknown = sorted({e.column for e in expressions if e.column not in known}, key=str)
+        if unknown:
+            raise ValueError(
+                f"Filter names unknown column(s) {unknown}; table columns are {sorted(known, key=str)}"
+            )
 
     def _get_current_schema(self) -> Optional[Schema]:
         """Get the current schema from metadata.
